@@ -6,7 +6,11 @@ ID = "C12"
 IMPL_TIMEOUT = 120.0
 RULE = ("as C11 (clean motif networks, scripted oracle streams, run level + method level) with symmetric dyadic "
         "targets from which random symmetric subsets of pairings ABSENT from the network are deleted or set to 0.0 "
-        "(existing edges keep positive weight); sometimes a whole unused topology is missing from the target. "
+        "(existing edges keep positive weight); sometimes a whole unused topology is missing from the target; the "
+        "mixed-corner cases of C11 (diamond networks, grid targets holding the wrong-slot keys) with absent pairings "
+        "deleted / zeroed sparingly (<= 24% / <= 12%), so that swaps between mixed corners are decided by the "
+        "Metropolis draw and a pairing manufactured through a wrong slot is either a created edge of zero target "
+        "weight or a wrong numerator. "
         "c12_check judges every step of every real run: each edge present after a change and absent before must have "
         "positive target weight for its topology and joint-excess-degree pair. swap_condition's decision, numerator "
         "and denominator are compared exactly (rationals vs floats). Non-trivial = at least one accepted swap")
